@@ -364,30 +364,39 @@ def _reldev(a, b, unit=1.0):
 def _snap(v):
     """exact, cheap snapshot of an argument: dtype, shape, strides and bytes of arrays, key order of
     dicts, container and element types of sequences"""
-    if isinstance(v, np.ndarray):
+    t = type(v)
+    if t is np.ndarray:
         return ('A', v.dtype.str, v.shape, v.strides, v.tobytes())
+    if t is list or t is tuple:
+        if not any(isinstance(x, (list, tuple, dict, np.ndarray)) for x in v):
+            return (t.__name__, tuple(v), tuple(map(type, v)))      # flat sequence of scalars
+        return (t.__name__, tuple(_snap(x) for x in v))
     if isinstance(v, dict):
-        return ('D', tuple((k, _snap(x)) for k, x in v.items()))
-    if isinstance(v, (list, tuple)):
-        return (type(v).__name__, tuple(_snap(x) for x in v))
-    return (type(v).__name__, repr(v))
+        return ('D', tuple([(k, _snap(x)) for k, x in v.items()])) if v else ('D',)
+    if isinstance(v, np.ndarray):
+        return ('A', t.__name__, v.dtype.str, v.shape, v.strides, v.tobytes())
+    return (t.__name__, repr(v))
+
+
+_DS_PARTS = ('measurements', 'descriptors', 'obs_descriptors', 'channel_descriptors', 'shape')
 
 
 def _snap_ds(ds):
-    return {'measurements': (id(ds.measurements), _snap(ds.measurements)),
-            'descriptors': _snap(ds.descriptors), 'obs_descriptors': _snap(ds.obs_descriptors),
-            'channel_descriptors': _snap(ds.channel_descriptors), 'shape': (ds.n_obs, ds.n_channel)}
+    m = ds.measurements
+    return ((id(m), m.dtype.str, m.shape, m.strides, m.tobytes()), _snap(ds.descriptors),
+            _snap(ds.obs_descriptors), _snap(ds.channel_descriptors), (ds.n_obs, ds.n_channel))
 
 
 def _args_unchanged(ctx, op, case, ds, before, arrays=()):
     """the caller's Dataset and ndarray arguments must be bit-identical after a library call;
     arrays: (name, array, snapshot before)"""
     after = _snap_ds(ds)
-    for key in before:
-        if before[key] != after[key]:
-            ctx.fail('%s|any|modifies-argument:dataset.%s' % (op, key), case,
-                     'the caller\'s dataset.%s changed during the call: before %.300r, after %.300r' % (
-                         key, before[key], after[key]))
+    if after != before:
+        for key, was, now in zip(_DS_PARTS, before, after):
+            if was != now:
+                ctx.fail('%s|any|modifies-argument:dataset.%s' % (op, key), case,
+                         'the caller\'s dataset.%s changed during the call: before %.300r, after %.300r' % (
+                             key, was, now))
     for name, arr, snap in arrays:
         if arr is not None and _snap(arr) != snap:
             ctx.fail('%s|any|modifies-argument:%s' % (op, name), case,
